@@ -66,7 +66,8 @@ pub fn shrink_world_case(case: &Value) -> Vec<Value> {
 // ------------------------------------------------------------------ C03
 
 pub struct C03;
-const C03_CLASSES: [&str; 13] = [
+const C03_CLASSES: [&str; 14] = [
+    "honest-establish-refused",
     "closing-signature-not-on-ledger-state",
     "faulty-reply-accepted",
     "refused-reply-changed-state",
@@ -148,6 +149,82 @@ fn c03_enumerated(seed: u64) -> Vec<Value> {
     v
 }
 
+/// Several merchants served one after the other by the same thread, each configuration living in
+/// the same variable (stack slot) or in a freshly allocated box that is dropped before the next
+/// one is built: every honest channel of every merchant must still close.
+fn c03_merchant_rotation(o: &mut Outcome, seed: u64) {
+    use crate::rng::SimRng;
+    use zkabacus_crypto as za;
+    let specs = ["9001", "9002", "9003", "9001"];
+    for boxed in [false, true] {
+        for (k, spec) in specs.iter().enumerate() {
+            let src = merchant(spec);
+            let build = || -> za::merchant::Config {
+                let kp = bincode::deserialize(&src.kp_bytes).unwrap_or_else(|_| crate::harness_error("key pair bytes"));
+                let rev = bincode::deserialize(&src.rev_bytes).unwrap_or_else(|_| crate::harness_error("rev bytes"));
+                let range = bincode::deserialize(&src.range_bytes).unwrap_or_else(|_| crate::harness_error("range bytes"));
+                za::merchant::Config::from_parts(kp, rev, range)
+            };
+            let on_stack;
+            let on_heap;
+            let cfg: &za::merchant::Config = if boxed {
+                on_heap = Box::new(build());
+                &on_heap
+            } else {
+                on_stack = build();
+                &on_stack
+            };
+            let (pk, rev, range) = cfg.extract_customer_config_parts();
+            let ccfg = za::customer::Config::from_parts(pk, rev, range);
+            let mut rng = SimRng::new(seed, &format!("c03/rotation/{}/{}", boxed, k));
+            for stage in ["inactive", "ready"] {
+                let cid = za::ChannelId::new(za::MerchantRandomness::new(&mut rng), za::CustomerRandomness::new(&mut rng), cfg.signing_keypair().public_key(), b"m", b"c");
+                let ctx = za::Context::new(b"c03-rotation");
+                let (cb, mb) = (za::CustomerBalance::try_new(30 + k as u64).unwrap(), za::MerchantBalance::try_new(3).unwrap());
+                let (req, proof) = za::customer::Requested::new(&mut rng, &ccfg, cid, mb, cb, &ctx);
+                let (cs, vbs) = match cfg.initialize(&mut rng, &cid, cb, mb, proof, &ctx) {
+                    Some(x) => x,
+                    None => {
+                        o.violate("honest-establish-refused", "merchant::Config::initialize", format!("merchant #{} ({}) of a sequence served by one thread", k, spec));
+                        continue;
+                    }
+                };
+                let inactive = match req.complete(cs, &ccfg) {
+                    Ok(i) => i,
+                    Err(_) => {
+                        o.violate("honest-reply-refused", "customer::requested", format!("merchant #{} ({}) of a sequence served by one thread", k, spec));
+                        continue;
+                    }
+                };
+                let cm = if stage == "inactive" {
+                    inactive.close(&mut rng)
+                } else {
+                    match inactive.activate(cfg.activate(&mut rng, vbs), &ccfg) {
+                        Ok(r) => r.close(&mut rng),
+                        Err(_) => {
+                            o.violate("honest-reply-refused", "customer::inactive", format!("merchant #{} ({})", k, spec));
+                            continue;
+                        }
+                    }
+                };
+                o.events += 4;
+                o.bump("probe.rotation_close_checked");
+                let (sig, st) = cm.into_parts();
+                if !matches!(cfg.check_close_signature(sig, &st), zkabacus_crypto::Verification::Verified) {
+                    o.violate(
+                        "closing-message-refused-by-merchant",
+                        &format!("customer::{}::close", stage),
+                        format!("merchant #{} ({}, configuration {}) of a sequence served by one thread refuses an honest closing message", k, spec, if boxed { "boxed, previous one dropped" } else { "in the same variable" }),
+                    );
+                }
+            }
+        }
+    }
+    o.nontrivial = true;
+    o.shape = mix(&[0xC03B, seed]);
+    o.log_hash = mix(&[o.shape, o.violations.len() as u64]);
+}
+
 impl Prop for C03 {
     fn id(&self) -> &'static str {
         "C03"
@@ -156,8 +233,12 @@ impl Prop for C03 {
         "exploration"
     }
     fn cases(&self, tier: Tier, seed: u64) -> CaseSet {
+        let mut en = c03_enumerated(seed);
+        for k in 0..(if tier == Tier::Quick { 2u64 } else { 40 }) {
+            en.push(json!({"f": "merchant-rotation", "seed": mix(&[seed, 0xC03B, k])}));
+        }
         CaseSet {
-            enumerated: c03_enumerated(seed),
+            enumerated: en,
             random: match tier {
                 Tier::Quick => 450,
                 Tier::Thorough => 60_000,
@@ -175,6 +256,10 @@ impl Prop for C03 {
     }
     fn run(&self, case: &Value) -> Outcome {
         let mut o = Outcome::default();
+        if case["f"] == "merchant-rotation" {
+            c03_merchant_rotation(&mut o, case["seed"].as_u64().unwrap_or(0));
+            return o;
+        }
         let plan = plan_of(case);
         let _ = run_plan(&plan, &mut o);
         keep(&mut o, &C03_CLASSES);
@@ -182,10 +267,13 @@ impl Prop for C03 {
         o
     }
     fn shrink(&self, case: &Value) -> Vec<Value> {
+        if case["f"] == "merchant-rotation" {
+            return Vec::new();
+        }
         shrink_world_case(case)
     }
     fn rule(&self) -> String {
-        "one case = one plan: 1-3 channels over 1-2 merchants, 0-4 (thorough 0-8) payments each with amounts of either sign / zero / boundary values, per reply point a geometric number (mean ~0.8, max 4) of faulty replies before the honest one drawn from {garbage, signature on a commitment shifted in slot 0..4, reply of the other type, other merchant's key, replay of an earlier recorded reply, identity as bytes, identity as value via zero merchant entropy}, a drawn stop point (inactive / ready / started / locked at any payment) ending in a real close(), a drawn interleaving of channels, wire on or off. Enumerated part: every fault kind at every reply point. Distinct = distinct executed event-kind/outcome sequence; non-trivial = at least one faulty reply was delivered".into()
+        "(merchant-rotation cases: four merchant configurations served one after the other by one thread, each in the same variable / in a box dropped before the next, every honest channel must close.) one case = one plan: 1-3 channels over 1-2 merchants, 0-4 (thorough 0-8) payments each with amounts of either sign / zero / boundary values, per reply point a geometric number (mean ~0.8, max 4) of faulty replies before the honest one drawn from {garbage, signature on a commitment shifted in slot 0..4, reply of the other type, other merchant's key, replay of an earlier recorded reply, identity as bytes, identity as value via zero merchant entropy}, a drawn stop point (inactive / ready / started / locked at any payment) ending in a real close(), a drawn interleaving of channels, wire on or off. Enumerated part: every fault kind at every reply point. Distinct = distinct executed event-kind/outcome sequence; non-trivial = at least one faulty reply was delivered".into()
     }
     fn assumptions(&self) -> Vec<String> {
         vec![
@@ -196,6 +284,7 @@ impl Prop for C03 {
     }
     fn required_probes(&self, _tier: Tier) -> Vec<&'static str> {
         vec![
+            "probe.rotation_close_checked",
             "probe.stop_at_inactive",
             "probe.stop_at_ready",
             "probe.stop_at_started",
